@@ -16,14 +16,12 @@ svars == <<vars, hist>>
 \* (wire write, read, handler body); "env" = performed by the driver; "auto" = happens by itself
 L(kind, name, th, arg) == hist' = Append(hist, [k |-> kind, a |-> name, th |-> th, arg |-> arg, c |-> c'])
 
-CallT(i) == <<"call", i>>
-NotT(j)  == <<"notif", j>>
-RespT(r) == <<"resp", r>>
 
 SNext ==
   \/ \E i \in Calls :
        \/ CRegister(i) /\ L("upd", "CRegister", CallT(i), i)
        \/ CRejected(i) /\ L("auto", "CRejected", CallT(i), i)
+       \/ CWAcq(i)     /\ L("io", "WAcq", CallT(i), i)
        \/ CWrite(i)    /\ L("io", IF sentCalls' # sentCalls THEN "CWriteOk" ELSE "CWriteFail", CallT(i), i)
        \/ CWErr(i)     /\ L("upd", "CWErr", CallT(i), i)
        \/ CCleanup(i)  /\ L("upd", "CCleanup", CallT(i), i)
@@ -32,6 +30,7 @@ SNext ==
        \/ PeerBogus(i) /\ L("env", "PeerBogus", <<"peer", 0>>, i)
   \/ \E j \in Notifs :
        \/ NBegin(j) /\ L("upd", "NBegin", NotT(j), j)
+       \/ NWAcq(j)  /\ L("io", "WAcq", NotT(j), j)
        \/ NWrite(j) /\ L("io", IF npc'[j] = "end" THEN "NWriteOk" ELSE "NWriteFail", NotT(j), j)
        \/ NWErr(j)  /\ L("upd", "NWErr", NotT(j), j)
        \/ NEnd(j)   /\ L("upd", "NEnd", NotT(j), j)
@@ -42,6 +41,7 @@ SNext ==
   \/ RAccept   /\ L("upd", "RAccept", <<"reader", 0>>, rreq)
   \/ REnqueue  /\ L("upd", "REnqueue", <<"reader", 0>>, rreq)
   \/ RPRDel    /\ L("upd", "RPRDel", <<"reader", 0>>, rreq)
+  \/ RPRWAcq   /\ L("io", "WAcq", <<"reader", 0>>, rreq)
   \/ RPRWrite  /\ L("io", IF responses' # responses THEN "PRWriteOk" ELSE "PRWriteFail", <<"reader", 0>>, rreq)
   \/ RPRWErr   /\ L("upd", "RPRWErr", <<"reader", 0>>, rreq)
   \/ RPRDecr   /\ L("upd", "RPRDecr", <<"reader", 0>>, rreq)
@@ -51,12 +51,14 @@ SNext ==
   \/ HHandleSync /\ L("io", "HHandleSync", <<"handler", 0>>, hreq)
   \/ HHandleAsync /\ L("io", "HHandleAsync", <<"handler", 0>>, hreq)
   \/ HPRDel    /\ L("upd", "HPRDel", <<"handler", 0>>, hreq)
+  \/ HPRWAcq   /\ L("io", "WAcq", <<"handler", 0>>, hreq)
   \/ HPRWrite  /\ L("io", IF responses' # responses THEN "PRWriteOk" ELSE "PRWriteFail", <<"handler", 0>>, hreq)
   \/ HPRWErr   /\ L("upd", "HPRWErr", <<"handler", 0>>, hreq)
   \/ HPRDecr   /\ L("upd", "HPRDecr", <<"handler", 0>>, hreq)
   \/ \E r \in Inst :
        \/ ARespLookup(r) /\ L("upd", "ARespLookup", RespT(r), r)
        \/ APRDel(r)   /\ L("upd", "APRDel", RespT(r), r)
+       \/ APRWAcq(r)  /\ L("io", "WAcq", RespT(r), r)
        \/ APRWrite(r) /\ L("io", IF responses' # responses THEN "PRWriteOk" ELSE "PRWriteFail", RespT(r), r)
        \/ APRWErr(r)  /\ L("upd", "APRWErr", RespT(r), r)
        \/ APRDecr(r)  /\ L("upd", "APRDecr", RespT(r), r)
